@@ -146,6 +146,7 @@ def validate(rec, source, path, tc_string, label):
     """-> True if validated. Precondition (checked): the original compiles."""
     from jaxtyping import _import_hook as H
 
+    # `source` may be bytes (corpus files: the loader decodes them itself, honouring coding cookies) or str
     try:
         orig_tree = compile(source, path, "exec", ast.PyCF_ONLY_AST, dont_inherit=True)
         orig_code = compile(orig_tree, path, "exec", dont_inherit=True)
@@ -357,11 +358,11 @@ def run_shard(rec, seed, shard, tier):
         try:
             with open(p, "rb") as f:
                 data = f.read()
-            src = importlib.util.decode_source(data)
+            importlib.util.decode_source(data)
         except Exception:
             rec.count("corpus.undecodable")
             continue
-        r = validate(rec, src, p, tcs[idx % len(tcs)], p)
+        r = validate(rec, data, p, tcs[idx % len(tcs)], p)  # raw bytes: exactly what the loader is given
         rec.case(("file", p), nontrivial=bool(r))
     for k in range(GENERATED[tier]):
         g = random.Random(f"{seed}/C10/{shard['i']}/gen{k}")
@@ -416,5 +417,4 @@ def replay(rec, case):
         src = GM.gen_static_module(random.Random(p[len("generated:"):]))
         validate(rec, src, "<generated>", case["typechecker"], p)
     else:
-        src = importlib.util.decode_source(open(p, "rb").read())
-        validate(rec, src, p, case["typechecker"], p)
+        validate(rec, open(p, "rb").read(), p, case["typechecker"], p)
